@@ -1,11 +1,595 @@
-//! C13 — not built yet.
+//! C13 — the heap held by a builder that streams to a sink is bounded by a constant of the
+//! cache geometry, the fan-out and the key length; it does not grow with the number of keys.
+//!
+//! The Coq side (coq/Mem.v, proofs/MemProofs.v) bounds the LOGICAL size of the model state for
+//! every reachable state; this side MEASURES the heap of the real builder with the counting
+//! allocator of `memtrack.rs` and compares the peak with the byte conversion of that bound
+//! (`mem_bound_bytes_builder`, computed here and, independently, by the extracted Coq
+//! definition: the two values are the `M` field) and with itself for growing `n` (saturation).
 use crate::common::*;
+use crate::memtrack as mem;
+use fst::raw::Builder;
+use std::io;
+use std::sync::Mutex;
+
 pub struct P;
+
+/// A sink that drops the bytes and counts them.
+pub struct DiscardSink {
+    pub n: u64,
+}
+impl io::Write for DiscardSink {
+    fn write(&mut self, buf: &[u8]) -> io::Result<usize> {
+        self.n += buf.len() as u64;
+        Ok(buf.len())
+    }
+    fn flush(&mut self) -> io::Result<()> {
+        Ok(())
+    }
+}
+
+// ---- byte sizes of the builder's structs on a 64-bit target (checked in extras()) ----
+pub const TRANS: u64 = 24; // raw::Transition
+pub const CELL: u64 = 48; // registry::RegistryCell
+pub const UNF: u64 = 64; // build::BuilderNodeUnfinished
+pub const STACK0: u64 = 64; // UnfinishedNodes::new: Vec::with_capacity(64)
+pub const ALLOWANCE: u64 = 1024; // fixed allowance: hook counters (Arc<[AtomicU64; 4]>, 48 bytes) and slop
+
+/// capacity bound of a Vec that holds at most n elements and grows by RawVec's amortised
+/// policy (new capacity = max(2*cap, required, 4)): push-growth gives the next power of two
+/// >= 4 (< 2n), reserve-growth (clone_from's extend) gives max(2*cap, required) < 2n.
+pub fn vcap(n: u64) -> u64 {
+    (2 * n).max(4)
+}
+
+/// Must equal Coq `Mem.mem_bound_bytes_builder rows cols maxfan maxkey`.
+pub fn mem_bound_bytes_builder(rows: u64, cols: u64, maxfan: u64, maxkey: u64) -> u64 {
+    let cells = rows * cols;
+    cells * CELL
+        + cells * vcap(maxfan) * TRANS
+        + vcap(maxkey + 1).max(STACK0) * UNF
+        + (maxkey + 1) * vcap(maxfan) * TRANS
+        + (2 * maxkey).max(8)
+        + ALLOWANCE
+}
+
+/// Sorted keys generated on the fly, nothing stored but the current key: a base-`fanout`
+/// counter of `keylen` digits advanced by pseudo-random positive increments (multiples of
+/// `stride`). Per counter value K the generator emits, in this (sorted) order,
+///   * family `fix`: K;
+///   * family `ext`: K and K+x (every second key extends the previous one by one byte);
+///   * family `pfx`: first the empty key, then per K a random subset of the proper prefixes of K
+///     that are longer than the prefix K shares with the previous counter value, K itself
+///     (2 in 3), and K+x (1 in 3): keys of varying length 0..keylen+1, many of which are
+///     proper prefixes of later keys, i.e. nodes that are final AND have children at
+///     several depths.
+/// All bytes come from an alphabet of `fanout` symbols.
+#[derive(Clone, Copy, PartialEq, Debug)]
+pub enum Family {
+    Fix,
+    Ext,
+    Pfx,
+}
+impl Family {
+    pub fn parse(s: &str) -> Family {
+        match s {
+            "fix" => Family::Fix,
+            "ext" => Family::Ext,
+            "pfx" => Family::Pfx,
+            _ => panic!("family"),
+        }
+    }
+    pub fn maxkey(self, keylen: usize) -> usize {
+        if self == Family::Fix { keylen } else { keylen + 1 }
+    }
+}
+pub struct KeyGen {
+    digits: Vec<u64>,
+    key: Vec<u8>,
+    pending: Vec<usize>,
+    fanout: u64,
+    base: u8,
+    stride: u64,
+    steps: u64,
+    rng: Rng,
+    family: Family,
+    started: bool,
+    pub maxlen: usize,
+    pub prefix_keys: u64,
+}
+impl KeyGen {
+    /// increments uniform in 1..=avg where avg = fanout^keylen / (n + 2): n keys always fit
+    pub fn new(family: Family, n: u64, fanout: u64, keylen: usize, seed: u64) -> KeyGen {
+        let mut space: u128 = 1;
+        for _ in 0..keylen {
+            space = (space * fanout as u128).min(1u128 << 100);
+        }
+        let avg = (space / (n as u128 + 2)).min(1u128 << 62) as u64;
+        assert!(avg >= 1, "key space too small for n");
+        KeyGen::with_steps(family, fanout, keylen, seed, 1, avg)
+    }
+    /// increments = stride * (1..=steps)
+    pub fn with_steps(family: Family, fanout: u64, keylen: usize, seed: u64, stride: u64, steps: u64) -> KeyGen {
+        assert!(fanout >= 2 && fanout <= 256 && keylen >= 1);
+        let base = if fanout <= 26 { b'a' } else { 0 };
+        KeyGen {
+            digits: vec![0; keylen],
+            key: vec![base; keylen + 1],
+            pending: Vec::with_capacity(keylen + 4),
+            fanout,
+            base,
+            stride,
+            steps,
+            rng: Rng::new(seed),
+            family,
+            started: false,
+            maxlen: 0,
+            prefix_keys: 0,
+        }
+    }
+    fn advance(&mut self) {
+        let keylen = self.digits.len();
+        if !self.started {
+            self.started = true;
+            if self.family == Family::Pfx {
+                self.pending.push(0);
+                return;
+            }
+        }
+        let mut carry = self.stride * (1 + self.rng.below(self.steps));
+        let mut i = keylen;
+        while carry > 0 && i > 0 {
+            i -= 1;
+            let v = self.digits[i] + carry;
+            self.digits[i] = v % self.fanout;
+            carry = v / self.fanout;
+            self.key[i] = self.base + self.digits[i] as u8;
+        }
+        assert!(carry == 0, "key space exhausted");
+        let p = i; // highest position that changed: K[..=p] is new, K[..p] is shared
+        self.key[keylen] = self.base + self.rng.below(self.fanout) as u8;
+        // lengths to emit, pushed in descending order (pop yields ascending)
+        match self.family {
+            Family::Fix => self.pending.push(keylen),
+            Family::Ext => {
+                self.pending.push(keylen + 1);
+                self.pending.push(keylen);
+                self.prefix_keys += 1;
+            }
+            Family::Pfx => {
+                let ext = self.rng.chance(1, 3);
+                let mut full = self.rng.chance(2, 3);
+                let mut mask: u128 = 0;
+                for l in p + 1..keylen {
+                    if self.rng.chance(1, 3) {
+                        mask |= 1u128 << l;
+                    }
+                }
+                if mask == 0 && !ext {
+                    full = true;
+                }
+                if ext {
+                    self.pending.push(keylen + 1);
+                }
+                if full {
+                    self.pending.push(keylen);
+                }
+                for l in (p + 1..keylen).rev() {
+                    if mask >> l & 1 == 1 {
+                        self.pending.push(l);
+                    }
+                }
+                self.prefix_keys += (self.pending.len() - 1) as u64;
+            }
+        }
+    }
+    /// advance and return the next key (strictly greater than the previous one)
+    pub fn next(&mut self) -> &[u8] {
+        if self.pending.is_empty() {
+            self.advance();
+        }
+        let l = self.pending.pop().unwrap();
+        self.maxlen = self.maxlen.max(l);
+        &self.key[..l]
+    }
+}
+
+#[derive(Clone, Debug, Default)]
+pub struct Meas {
+    pub peak_new: u64,
+    pub peak: u64,
+    pub left: i64,
+    pub allocs: u64,
+    pub hits: u64,
+    pub misses: u64,
+    pub evictions: u64,
+    pub rejected: u64,
+    pub emitted: u64,
+    pub maxlen: usize,
+    pub prefix_keys: u64,
+}
+
+pub fn value_of(i: u64) -> u64 {
+    (i * 7) & ((1u64 << 40) - 1)
+}
+
+/// One build configuration: `<kind> <family> <rows> <cols>` + `<fanout> <keylen> <seed>`.
+#[derive(Clone, Copy, Debug)]
+pub struct Cfg<'a> {
+    pub kind: &'a str,
+    pub family: Family,
+    pub rows: usize,
+    pub cols: usize,
+    pub fanout: u64,
+    pub keylen: usize,
+    pub seed: u64,
+}
+impl<'a> Cfg<'a> {
+    pub fn bound(&self) -> u64 {
+        mem_bound_bytes_builder(self.rows as u64, self.cols as u64, self.fanout, self.family.maxkey(self.keylen) as u64)
+    }
+}
+
+/// Stream n keys through the real builder into a discarding sink; everything between
+/// `reset` and the last `peak` runs on the calling thread.
+/// kind: "set" / "map" = raw::Builder add / insert with the cache geometry hook;
+/// "SetBuilder" / "MapBuilder" = the public front ends (default geometry, no counters).
+pub fn measure_build(c: &Cfg, n: u64) -> Meas {
+    use std::sync::atomic::Ordering::SeqCst;
+    let mut g = KeyGen::new(c.family, n, c.fanout, c.keylen, c.seed);
+    mem::reset();
+    let mut m = match c.kind {
+        "set" | "map" => {
+            let mut b = Builder::verif_new_type_with_cache(DiscardSink { n: 0 }, 0, c.rows, c.cols).unwrap();
+            // The hook builds the default 10000 x 2 registry first and then replaces it (a transient
+            // of 960000 bytes that `Builder::new` does not have): the peak is taken from the moment
+            // the hook returns, starting at the bytes the finished builder holds.
+            let peak_new = mem::current().max(0) as u64;
+            mem::reset_peak();
+            let h = b.verif_cache_stats_handle();
+            for i in 0..n {
+                let k = g.next();
+                let r = if c.kind == "map" { b.insert(k, value_of(i)) } else { b.add(k) };
+                if r.is_err() {
+                    panic!("builder rejected a generated key");
+                }
+            }
+            let sink = b.into_inner().unwrap();
+            Meas {
+                peak_new,
+                peak: mem::peak(),
+                left: mem::current(),
+                allocs: mem::allocs(),
+                hits: h[0].load(SeqCst),
+                misses: h[1].load(SeqCst),
+                evictions: h[2].load(SeqCst),
+                rejected: h[3].load(SeqCst),
+                emitted: sink.n,
+                ..Meas::default()
+            }
+        }
+        "SetBuilder" => {
+            assert!((c.rows, c.cols) == (10000, 2));
+            let mut b = fst::SetBuilder::new(DiscardSink { n: 0 }).unwrap();
+            let peak_new = mem::peak();
+            for _ in 0..n {
+                if b.insert(g.next()).is_err() {
+                    panic!("builder rejected a generated key");
+                }
+            }
+            let sink = b.into_inner().unwrap();
+            Meas { peak_new, peak: mem::peak(), left: mem::current(), allocs: mem::allocs(), emitted: sink.n, ..Meas::default() }
+        }
+        "MapBuilder" => {
+            assert!((c.rows, c.cols) == (10000, 2));
+            let mut b = fst::MapBuilder::new(DiscardSink { n: 0 }).unwrap();
+            let peak_new = mem::peak();
+            for i in 0..n {
+                if b.insert(g.next(), value_of(i)).is_err() {
+                    panic!("builder rejected a generated key");
+                }
+            }
+            let sink = b.into_inner().unwrap();
+            Meas { peak_new, peak: mem::peak(), left: mem::current(), allocs: mem::allocs(), emitted: sink.n, ..Meas::default() }
+        }
+        _ => panic!("kind"),
+    };
+    m.maxlen = g.maxlen;
+    m.prefix_keys = g.prefix_keys;
+    m
+}
+
+/// The same families into a growing `Vec<u8>` sink owned by the builder: what "buffering the
+/// output" looks like to the measurement (used only to show that the criteria can fail).
+pub fn measure_build_buffering(family: Family, n: u64, fanout: u64, keylen: usize, seed: u64) -> u64 {
+    let mut g = KeyGen::new(family, n, fanout, keylen, seed);
+    mem::reset();
+    let mut b = Builder::verif_new_type_with_cache(Vec::new(), 0, 100, 2).unwrap();
+    mem::reset_peak();
+    for _ in 0..n {
+        b.add(g.next()).unwrap();
+    }
+    let v = b.into_inner().unwrap();
+    let p = mem::peak();
+    drop(v);
+    p
+}
+
+/// saturation criterion: peak(n2) <= peak(n1) * num/100 + add
+/// (measured on the unchanged code over 360 cases: peak(n2) - peak(n1) <= 1392 bytes)
+pub fn sat_criterion(_rows: usize, _cols: usize) -> (u64, u64) {
+    (102, 16384)
+}
+
+fn hooked(kind: &str) -> bool {
+    kind == "set" || kind == "map"
+}
+
+static LOG: Mutex<Vec<String>> = Mutex::new(Vec::new());
+fn log(s: String) {
+    if std::env::var("VERIF_MEM_DEBUG").is_ok() {
+        eprintln!("{}", s);
+    }
+    LOG.lock().unwrap().push(s);
+}
+
+const FAMILIES: [&str; 3] = ["fix", "ext", "pfx"];
+
 impl Prop for P {
-    fn generate(&self, _tier: Tier, _rng: &mut Rng, _stats: &mut Stats) -> Vec<String> {
-        vec![]
+    fn generate(&self, tier: Tier, rng: &mut Rng, stats: &mut Stats) -> Vec<String> {
+        let mut cases = vec![];
+        // (fanout, keylen): bounded fan-out and key length, key space >> n
+        let shapes: &[(u64, usize)] = &[(2, 40), (4, 16), (16, 8), (26, 10), (64, 6), (256, 8), (3, 64)];
+        let geoms: &[(usize, usize)] = &[(100, 2), (10000, 2), (0, 0), (1, 1), (64, 1), (1000, 5), (16, 16)];
+        let ns: &[u64] = match tier {
+            Tier::Quick => &[100_000, 300_000, 1_000_000],
+            Tier::Thorough => &[100_000, 1_000_000, 10_000_000],
+            Tier::Wide => &[100_000, 1_000_000],
+        };
+        for kind in ["set", "map"] {
+            for fam in FAMILIES {
+                for &(rows, cols) in geoms {
+                    for &(fan, kl) in shapes {
+                        for &n in ns {
+                            // the big runs only for a few shapes (time)
+                            if n >= 1_000_000 && !(fan == 4 || fan == 26 || (fan == 256 && tier != Tier::Quick)) {
+                                continue;
+                            }
+                            if n >= 1_000_000 && !matches!((rows, cols), (100, 2) | (10000, 2) | (0, 0) | (1000, 5)) {
+                                continue;
+                            }
+                            if n >= 10_000_000 && !((rows, cols) == (100, 2) || (rows, cols) == (10000, 2)) {
+                                continue;
+                            }
+                            let seed = 1 + rng.below(1 << 30);
+                            cases.push(format!("build {} {} {} {} {} {} {} {}", kind, fam, rows, cols, n, fan, kl, seed));
+                            stats.bump(&format!("build_n{}", n));
+                            stats.bump(&format!("build_family_{}", fam));
+                        }
+                    }
+                }
+            }
+        }
+        for kind in ["SetBuilder", "MapBuilder"] {
+            for fam in FAMILIES {
+                for &(fan, kl) in shapes {
+                    for &n in ns {
+                        if n >= 1_000_000 && !(fan == 4 || fan == 26) {
+                            continue;
+                        }
+                        let seed = 1 + rng.below(1 << 30);
+                        cases.push(format!("build {} {} 10000 2 {} {} {} {}", kind, fam, n, fan, kl, seed));
+                        stats.bump(&format!("build_n{}", n));
+                        stats.bump(&format!("build_family_{}", fam));
+                        stats.bump("public_front_end_cases");
+                    }
+                }
+            }
+        }
+        // saturation: families whose steady state is reached quickly (fan-out <= 4: every cell's
+        // Vec sits at the minimum capacity 4; or a cache of 20 cells)
+        let flat_shapes: &[(u64, usize)] = &[(4, 16), (2, 40), (3, 64)];
+        let wide_shapes: &[(u64, usize)] = &[(26, 10), (16, 8), (64, 6)];
+        let (s1, s2) = match tier {
+            Tier::Quick | Tier::Wide => (100_000u64, 1_000_000u64),
+            Tier::Thorough => (1_000_000, 10_000_000),
+        };
+        let (d1, d2) = match tier {
+            Tier::Quick | Tier::Wide => (300_000u64, 1_000_000u64),
+            Tier::Thorough => (1_000_000, 4_000_000),
+        };
+        for kind in ["set", "map", "SetBuilder", "MapBuilder"] {
+            for fam in FAMILIES {
+                for &(fan, kl) in flat_shapes {
+                    let seed = 1 + rng.below(1 << 30);
+                    if hooked(kind) {
+                        cases.push(format!("sat {} {} 100 2 {} {} {} {} {}", kind, fam, s1, s2, fan, kl, seed));
+                        stats.bump(&format!("sat_family_{}", fam));
+                    }
+                    if hooked(kind) || fan == 4 {
+                        cases.push(format!("sat {} {} 10000 2 {} {} {} {} {}", kind, fam, d1, d2, fan, kl, seed));
+                        stats.bump(&format!("sat_family_{}", fam));
+                    }
+                    if tier == Tier::Thorough && fan == 4 {
+                        cases.push(format!("sat {} {} 10000 2 1000000 10000000 {} {} {}", kind, fam, fan, kl, seed));
+                        stats.bump(&format!("sat_family_{}", fam));
+                    }
+                }
+                if hooked(kind) {
+                    for &(fan, kl) in wide_shapes {
+                        // 64^6 is too small a key space for 10^7 keys to look like 10^6 keys
+                        if tier == Tier::Thorough && fan == 64 {
+                            continue;
+                        }
+                        let seed = 1 + rng.below(1 << 30);
+                        cases.push(format!("sat {} {} 10 2 {} {} {} {} {}", kind, fam, s1, s2, fan, kl, seed));
+                        stats.bump(&format!("sat_family_{}", fam));
+                        // (larger caches with fan-out > 4 creep towards the bound for a long time:
+                        // the capacities of the cells' Vecs are retained and only grow; those
+                        // configurations are checked against the bound only, see `build`)
+                    }
+                }
+            }
+        }
+        cases
     }
-    fn execute(&self, _case: &str) -> String {
-        String::new()
+
+    fn nontrivial(&self, case: &str) -> bool {
+        // at least 10^5 keys
+        let p: Vec<&str> = case.split(' ').collect();
+        p.len() >= 9 && p[5].parse::<u64>().map(|n| n >= 100_000).unwrap_or(false)
     }
+
+    fn execute(&self, case: &str) -> String {
+        let p: Vec<&str> = case.split(' ').collect();
+        match p[0] {
+            "build" => {
+                let n: u64 = p[5].parse().unwrap();
+                let c = Cfg {
+                    kind: p[1],
+                    family: Family::parse(p[2]),
+                    rows: p[3].parse().unwrap(),
+                    cols: p[4].parse().unwrap(),
+                    fanout: p[6].parse().unwrap(),
+                    keylen: p[7].parse().unwrap(),
+                    seed: p[8].parse().unwrap(),
+                };
+                let m = measure_build(&c, n);
+                let bound = c.bound();
+                log(format!(
+                    "{}: peak={} after_new={} left={} bound={} allocs={} hits={} misses={} evictions={} rejected={} emitted={} maxlen={} prefix_keys={}",
+                    case, m.peak, m.peak_new, m.left, bound, m.allocs, m.hits, m.misses, m.evictions, m.rejected, m.emitted, m.maxlen, m.prefix_keys
+                ));
+                let within = m.peak <= bound;
+                let mut x = String::from("ok");
+                if !within {
+                    x = format!("peak={} bound={} after_new={} misses={} emitted={}", m.peak, bound, m.peak_new, m.misses, m.emitted);
+                } else if hooked(c.kind) && (m.misses + m.rejected) * 8 < n {
+                    // the family must keep producing nodes the cache has not seen
+                    x = format!("degenerate family: only {} new nodes for {} keys", m.misses + m.rejected, n);
+                } else if m.emitted < n {
+                    x = format!("sink saw only {} bytes for {} keys", m.emitted, n);
+                } else if m.maxlen > c.family.maxkey(c.keylen) || (c.family != Family::Fix && m.prefix_keys * 5 < n) {
+                    x = format!("family wrong: longest key {} prefix keys {}", m.maxlen, m.prefix_keys);
+                }
+                format!("S:{}\tM:{}\tX:{}", if within { "within" } else { "exceeds" }, bound, x)
+            }
+            "sat" => {
+                let n1: u64 = p[5].parse().unwrap();
+                let n2: u64 = p[6].parse().unwrap();
+                let c = Cfg {
+                    kind: p[1],
+                    family: Family::parse(p[2]),
+                    rows: p[3].parse().unwrap(),
+                    cols: p[4].parse().unwrap(),
+                    fanout: p[7].parse().unwrap(),
+                    keylen: p[8].parse().unwrap(),
+                    seed: p[9].parse().unwrap(),
+                };
+                let m1 = measure_build(&c, n1);
+                let m2 = measure_build(&c, n2);
+                let bound = c.bound();
+                let (num, add) = sat_criterion(c.rows, c.cols);
+                let new1 = m1.misses + m1.rejected;
+                let new2 = m2.misses + m2.rejected;
+                let limit = m1.peak * num / 100 + add;
+                let sat = m2.peak <= limit;
+                log(format!(
+                    "{}: peak1={} peak2={} limit={} bound={} misses1={} misses2={} emitted1={} emitted2={} prefix_keys2={}",
+                    case, m1.peak, m2.peak, limit, bound, m1.misses, m2.misses, m1.emitted, m2.emitted, m2.prefix_keys
+                ));
+                let mut x = String::from("ok");
+                if !sat {
+                    x = format!("peak({})={} peak({})={} limit={}", n1, m1.peak, n2, m2.peak, limit);
+                } else if hooked(c.kind) && (new2 - new1.min(new2)) * 8 < n2 - n1 {
+                    x = format!("degenerate family: new nodes {} -> {}", new1, new2);
+                } else if m2.peak > bound || m1.peak > bound {
+                    x = format!("peak {} / {} above bound {}", m1.peak, m2.peak, bound);
+                } else if c.family != Family::Fix && m2.prefix_keys * 5 < n2 {
+                    x = format!("family wrong: {} prefix keys among {}", m2.prefix_keys, n2);
+                }
+                format!("S:{}\tM:{}\tX:{}", if sat { "saturated" } else { "grows" }, bound, x)
+            }
+            _ => "S:BADCASE\tM:BADCASE".into(),
+        }
+    }
+
+    fn extras(&self, _tier: Tier, _rng: &mut Rng, stats: &mut Stats) -> Vec<(String, bool, String)> {
+        let mut out = vec![];
+        // struct sizes: crate-private types are mirrored field by field
+        #[allow(dead_code)]
+        struct MBuilderNode {
+            is_final: bool,
+            final_output: fst::raw::Output,
+            trans: Vec<fst::raw::Transition>,
+        }
+        #[allow(dead_code)]
+        struct MRegistryCell {
+            addr: fst::raw::CompiledAddr,
+            node: MBuilderNode,
+        }
+        #[allow(dead_code)]
+        struct MLastTransition {
+            inp: u8,
+            out: fst::raw::Output,
+        }
+        #[allow(dead_code)]
+        struct MUnfinished {
+            node: MBuilderNode,
+            last: Option<MLastTransition>,
+        }
+        let sz = (
+            std::mem::size_of::<fst::raw::Transition>() as u64,
+            std::mem::size_of::<MRegistryCell>() as u64,
+            std::mem::size_of::<MUnfinished>() as u64,
+        );
+        out.push((
+            "struct_sizes_match_Mem_v".to_string(),
+            sz == (TRANS, CELL, UNF),
+            format!("size_of Transition={} RegistryCell(mirror)={} BuilderNodeUnfinished(mirror)={}; Mem.v uses {} {} {}", sz.0, sz.1, sz.2, TRANS, CELL, UNF),
+        ));
+        // what the cases measured
+        let logv = LOG.lock().unwrap().clone();
+        let mut worst_ratio = 0.0f64;
+        let mut worst_case = String::new();
+        for l in &logv {
+            if let (Some(pk), Some(bd)) = (field(l, "peak="), field(l, "bound=")) {
+                if bd > 0 && pk as f64 / bd as f64 > worst_ratio {
+                    worst_ratio = pk as f64 / bd as f64;
+                    worst_case = l.split(':').next().unwrap().to_string();
+                }
+                let cfg: Vec<&str> = l.split(':').next().unwrap().split(' ').collect();
+                if cfg[0] == "build" {
+                    let key = format!("peak_bytes_{}_{}_{}x{}_n{}_f{}_l{}", cfg[1], cfg[2], cfg[3], cfg[4], cfg[5], cfg[6], cfg[7]);
+                    stats.counters.insert(key, pk);
+                }
+            }
+        }
+        let mut sample: Vec<String> =
+            logv.iter().filter(|l| l.starts_with("sat ") || (l.contains(" 10000 2 1000000 ") && l.starts_with("build "))).cloned().collect();
+        sample.sort();
+        sample.truncate(80);
+        out.push(("measured_peaks".to_string(), true, format!("worst peak/bound = {:.3} ({}); {}", worst_ratio, worst_case, sample.join(" | "))));
+        // detection power: a builder that owns a growing output buffer must fail both criteria
+        for fam in [Family::Fix, Family::Pfx] {
+            let p1 = measure_build_buffering(fam, 100_000, 4, 16, 7);
+            let p2 = measure_build_buffering(fam, 400_000, 4, 16, 7);
+            let bound = mem_bound_bytes_builder(100, 2, 4, fam.maxkey(16) as u64);
+            let (num, add) = sat_criterion(100, 2);
+            let detected = p2 > bound && p2 > p1 * num / 100 + add;
+            out.push((
+                format!("criteria_reject_buffered_output_{:?}", fam),
+                detected,
+                format!("Vec<u8> sink counted with the builder: peak(1e5)={} peak(4e5)={} bound={} -> both criteria fail as they must: {}", p1, p2, bound, detected),
+            ));
+        }
+        out
+    }
+}
+
+fn field(l: &str, name: &str) -> Option<u64> {
+    let i = l.find(name)? + name.len();
+    let rest = &l[i..];
+    let end = rest.find(' ').unwrap_or(rest.len());
+    rest[..end].parse().ok()
 }
